@@ -193,6 +193,13 @@ func Scenarios() []Scenario {
 				evalBody(`[d.L[0], d.L[1], d.Pick(1), d.Pick(2), d.Pick(3)]`, risor.WithGlobal("d", &StructD{L: []any{"t", 2.5}, V: 2.5})),
 			}
 		}},
+		{Name: "one evaluation edits the attribute map of a Go type, another reads it", Make: func() []Body {
+			// reflection data handed to scripts as ordinary (mutable) containers must not be shared between VMs
+			return []Body{
+				evalBody(`a := d.__type__.attributes; a["injected"] = 1; len(a)`, risor.WithGlobal("d", &StructD{L: []any{1}, V: 1})),
+				evalBody(`a := d.__type__.attributes; [len(a), "injected" in a]`, risor.WithGlobal("d", &StructD{L: []any{2}, V: 2})),
+			}
+		}},
 		{Name: "codec lookup vs codec lookup vs registration", Make: func() []Body {
 			return []Body{
 				evalBody(`encode("a", "base64")`),
